@@ -290,6 +290,134 @@ def gen_spec(rng, regime, allow_left=False, kinds=None):
     return spec
 
 
+# ----------------------------------------------------------------------------------------
+# small changes of a live Box (warm cache -> tiny change through any setter -> re-read)
+# ----------------------------------------------------------------------------------------
+PERT_FORMS = ['scale', 'entry', 'shear', 'strain', 'ulp', 'ulp', 'same']
+PERT_TARGETS = ['attr_vects', 'vects', 'vectors', 'lengths', 'hilos', 'abc', 'attr_origin', 'attr_vects', 'vects']
+
+
+def gen_perturb(rng, eps=None):
+    """a *request* for a small change; made concrete on the live Box by resolve_perturb (the concrete spec is what
+    goes into histories / replays).  eps: relative size, log-uniform over 1e-15 .. 1e-4 (the whole range between one
+    rounding error and what a generous `allclose` would call unchanged), or one ulp, or no change at all."""
+    if eps is None:
+        eps = rng.choice([-1, 1]) * 10 ** rng.uniform(-15, -4)
+    return {'perturb': {'form': rng.choice(PERT_FORMS), 'eps': eps, 'i': rng.randrange(3), 'j': rng.randrange(3),
+                        'k': rng.randrange(12), 'target': rng.choice(PERT_TARGETS),
+                        'via': rng.choice(['set', 'method']), 'container': rng.choice(['list', 'array']),
+                        'keep_origin': rng.random() < 0.8, 'up': rng.random() < 0.5}}
+
+
+def _bump(x, form, eps, up):
+    if form == 'ulp':
+        return math.nextafter(x, math.inf if up else -math.inf)
+    if form == 'same':
+        return x
+    return x * (1.0 + eps)
+
+
+def resolve_perturb(box, req):
+    """the concrete setter spec (kind / via / kw of plain floats) that applies the requested small change to the
+    current state of `box`.  Deterministic given the state and the request."""
+    np = _np()
+    q = req['perturb']
+    form, eps, up, target = q['form'], q['eps'], q['up'], q['target']
+    V = np.array(box.vects, dtype=float)
+    o = [float(x) for x in box.origin]
+    normal = bool(box.is_lammps_norm())
+    if target in ('lengths', 'hilos', 'abc') and not normal:
+        target = 'vects'
+    spec = {'via': q['via'], 'regime': 'float', 'container': q['container'], 'perturbed': dict(q)}
+    if target == 'attr_origin':
+        vmax = float(abs(V).max())
+        o2 = list(o)
+        i = q['i']
+        if form == 'ulp':
+            o2[i] = math.nextafter(o2[i], math.inf if up else -math.inf)
+        elif form == 'scale':
+            o2 = [x * (1.0 + eps) for x in o2]
+        elif form != 'same':
+            o2[i] = o2[i] + eps * vmax
+        spec.update(kind='attr_origin', via='attr' if q['via'] == 'method' else 'set', kw={'origin': o2})
+        return spec
+    if target in ('attr_vects', 'vects', 'vectors'):
+        W = V.copy()
+        i, j = q['i'], q['j']
+        if W[i, j] == 0.0:
+            j = int(abs(W[i]).argmax())
+        if form == 'scale':
+            W = W * (1.0 + eps)
+        elif form in ('entry', 'ulp'):
+            W[i, j] = _bump(float(W[i, j]), form, eps, up)
+        elif form == 'shear':
+            i, j = q['i'], q['j']
+            if i == j:
+                j = (i + 1) % 3
+            if normal and i < j:
+                i, j = j, i           # keeps a lower-triangular cell lower-triangular
+            F = np.eye(3)
+            F[i, j] += eps
+            W = W.dot(F)
+        elif form == 'strain':
+            F = np.eye(3) * (1.0 + eps)
+            F[1, 0] = eps / 2
+            W = W.dot(F)
+        W = W.tolist()
+        if target == 'attr_vects':
+            spec.update(kind='attr_vects', via='attr', kw={'vects': W})
+            return spec
+        kw = {'vects': W} if target == 'vects' else {'avect': W[0], 'bvect': W[1], 'cvect': W[2]}
+        if q['keep_origin']:
+            kw['origin'] = o
+        spec.update(kind=target, kw=kw)
+        return spec
+    if target in ('lengths', 'hilos'):
+        names = ['lx', 'ly', 'lz', 'xy', 'xz', 'yz'] if target == 'lengths' else \
+            ['xlo', 'xhi', 'ylo', 'yhi', 'zlo', 'zhi', 'xy', 'xz', 'yz']
+        kw = {n: float(getattr(box, n)) for n in names}
+        if form in ('scale', 'strain', 'shear'):
+            kw = {n: v * (1.0 + eps) for n, v in kw.items()}
+        else:
+            n = names[q['k'] % len(names)]
+            kw[n] = _bump(kw[n], form, eps, up)
+        if target == 'lengths' and q['keep_origin']:
+            kw['origin'] = o
+        spec.update(kind=target, kw=kw)
+        return spec
+    # abc: the cell's own lengths and angles, slightly changed
+    names = ['a', 'b', 'c', 'alpha', 'beta', 'gamma']
+    kw = {n: float(getattr(box, n)) for n in names}
+    if form in ('scale', 'strain', 'shear'):
+        for n in 'abc':
+            kw[n] = kw[n] * (1.0 + eps)
+    else:
+        n = names[q['k'] % 6]
+        kw[n] = _bump(kw[n], form, eps, up)
+    if q['keep_origin']:
+        kw['origin'] = o
+    spec.update(kind='abc', kw=kw)
+    return spec
+
+
+def scale_spec(spec, f):
+    """the same cell definition in other units: every length (not the angles) times f (a power of two)."""
+    kw = {}
+    for k, v in spec['kw'].items():
+        if k in ('alpha', 'beta', 'gamma'):
+            kw[k] = v
+        elif isinstance(v, (list, tuple)):
+            kw[k] = [[x * f for x in r] if isinstance(r, (list, tuple)) else r * f for r in v]
+        else:
+            kw[k] = v * f
+    out = dict(spec, kw=kw)
+    if out.get('via') == 'family':
+        out['fargs'] = [x * f if i < {'cubic': 1, 'hexagonal': 2, 'tetragonal': 2, 'trigonal': 1, 'orthorhombic': 3,
+                                      'monoclinic': 3, 'triclinic': 3}[out['family']] else x
+                        for i, x in enumerate(out['fargs'])]
+    return out
+
+
 def gen_abc(rng, grid):
     """a, b, c and a realisable angle triple; sometimes one of the crystal families."""
     L = (lambda: _pos_dy(rng, 8.0)) if grid else (lambda: rng.uniform(1.0, 8.0))
@@ -437,7 +565,7 @@ class _Scenario:
         self.history.append(h)
         if impl == 'ok' and spec['kind'] != 'attr_origin':
             # exact comparison: dyadic grid and no float library call (cos, sqrt) in the setter
-            self.exact = self.regime == 'grid' and spec['kind'] != 'abc'
+            self.exact = spec.get('regime', self.regime) == 'grid' and spec['kind'] != 'abc'
         self.add(spec_line(spec), 'set', impl, spec=spec)
         if spec['kind'] == 'abc' and impl == 'ok':
             kw = spec['kw']
@@ -445,6 +573,15 @@ class _Scenario:
             p = abc_params(a, b, c, kw.get('alpha', 90.0), kw.get('beta', 90.0), kw.get('gamma', 90.0))
             self.add('abcres ' + cm.frs([a, b, c, *p]), 'abcres', None, spec=spec)
         return impl
+
+    def perturb(self, req):
+        """a small change of the live object (made concrete on its current state)."""
+        try:
+            spec = resolve_perturb(self.box, req)
+        except Exception as e:  # noqa  (a getter of the implementation raised: an observation, reported by read_get)
+            self.ctx.notes.append(f'perturbation not applicable: {type(e).__name__}: {e}')
+            return None
+        return self.setter(spec)
 
     # -- readers ---------------------------------------------------------------------------
     def read_get(self):
@@ -560,7 +697,8 @@ class _Scenario:
 
 
 def _short(spec):
-    return {k: v for k, v in spec.items() if k in ('kind', 'via', 'kw', 'family', 'fargs', 'container', 'regime', '_ok')}
+    return {k: v for k, v in spec.items() if k in ('kind', 'via', 'kw', 'family', 'fargs', 'container', 'regime', '_ok',
+                                                   'perturbed', 'alias')}
 
 
 def _cond(model_vects, model_recip):
@@ -595,6 +733,10 @@ def _scenarios(ctx, rng, n):
                 mspec = {'kind': 'attr_origin', 'via': rng.choice(['attr', 'set']), 'kw': {'origin': o}, 'regime': regime}
             elif m < 0.45:
                 mspec = {'kind': 'reset', 'via': 'set', 'kw': {}, 'regime': regime}
+            elif m < 0.7:
+                sc.perturb(gen_perturb(rng))
+                sc.all_reads(light=True)
+                continue
             else:
                 mspec = gen_spec(rng, regime, kinds=kinds)
                 if kinds:
@@ -604,6 +746,33 @@ def _scenarios(ctx, rng, n):
                     mspec['via'] = rng.choice(['set', 'method'])
             sc.setter(mspec)
             sc.all_reads(light=True)
+        out.append(sc)
+    return out
+
+
+def _perturb_scenarios(ctx, rng, n):
+    """warm caches, then a chain of small changes (one ulp .. 1e-4 relative, or none) through every setter, all
+    observations re-read after each; cells in several units (powers of two from 2^-30 to 2^30)."""
+    out = []
+    for sid in range(n):
+        sc = _Scenario(ctx, rng, 'float', 30_000 + sid)
+        spec = gen_spec(rng, 'float')
+        if rng.random() < 0.5:
+            spec = scale_spec(spec, 2.0 ** rng.choice([-30, -24, -10, 10, 20, 30]))
+        sc.setter(spec)
+        sc.all_reads()
+        eps0 = 10 ** rng.uniform(-15, -4)
+        for k in range(rng.randint(2, 4)):
+            # mostly one size per chain (accumulating strain), sometimes a fresh one
+            req = gen_perturb(rng, eps=(rng.choice([-1, 1]) * eps0 if rng.random() < 0.6 else None))
+            if sc.perturb(req) is None:
+                break
+            if rng.random() < 0.3:          # only the conversions / inside: no explicit read of reciprocal_vects first
+                sc.read_conv('c2r')
+                sc.read_inside(rng.choice(['inside', 'outside']))
+                sc.read_recip()
+            else:
+                sc.all_reads(light=True)
         out.append(sc)
     return out
 
@@ -707,7 +876,8 @@ def correspond(ctx):
     if Fraction(t) != THR:
         ctx.disagree('thr', f'driver threshold {t} is not the double 1e-9', {'op': 'thr'})
     _check_threshold_literal(ctx)
-    scs = _special_scenarios(ctx, rng) + _scenarios(ctx, rng, ctx.n(250, 5000))
+    scs = _special_scenarios(ctx, rng) + _scenarios(ctx, rng, ctx.n(250, 5000)) \
+        + _perturb_scenarios(ctx, rng, ctx.n(120, 2500))
     lines = [it[0] for sc in scs for it in sc.items]
     outs = ctx.driver.ask_many(lines)
     k = 0
@@ -939,35 +1109,73 @@ def _impl_cond(box):
         return float('inf')
 
 
-def oracle_cell(ctx, spec, pts, rels, muts=()):
-    """all clauses of C01 for one cell definition. pts: Cartesian points (floats), rels: relative points."""
+def oracle_cell(ctx, spec, pts, rels, muts=(), light=False):
+    """all clauses of C01 for one cell definition and then for the same Box *object* after each of `muts`.
+    pts: Cartesian points (floats), rels: relative points.  An element of muts is a concrete setter spec or a
+    request {'perturb': …} for a small change, made concrete on the live object (the replay stores the concrete one);
+    a spec may carry 'alias': the arrays handed to the setter / returned by the getters are scribbled on afterwards."""
     import atomman as am
     np = _np()
+    done = []
 
     def viol(key, what, **extra):
         ctx.violate(key, what, {'op': 'cell', 'spec': _short(spec), 'points': pts, 'rels': rels,
-                                'mutations': [_short(m) for m in muts], **extra})
+                                'mutations': [_short(m) for m in done], 'light': light, **extra})
 
     try:
-        box = apply_spec(am.Box() if spec.get('via') not in ('ctor', 'family') else None, spec)
+        box = apply_spec_alias(am.Box() if spec.get('via') not in ('ctor', 'family') else None, spec)
     except Exception as e:  # noqa
         viol(f"construct:{spec['kind']}", f"valid cell definition {_short(spec)} raised {type(e).__name__}: {e}")
         return
-    _oracle_box(ctx, box, spec, pts, rels, viol)
+    _oracle_box(ctx, box, spec, pts, rels, viol, light=light)
     for m in muts:
         try:
-            box.reciprocal_vects          # make sure a cache exists before the mutation
+            # make sure every lazily computed quantity exists before the mutation
+            box.reciprocal_vects
+            box.position_cartesian_to_relative(np.array(pts[:1]))
+            box.inside(np.array(pts[:1]))
+            box.planes
+            box.volume
         except Exception:  # noqa  (singular intermediate cell: outside the quantifier)
             pass
+        if 'perturb' in m:
+            try:
+                m = resolve_perturb(box, m)
+            except Exception as e:  # noqa
+                viol('getter:raises', f'reading the parameters of the cell {box.vects.tolist()} raised {type(e).__name__}: {e}')
+                return
+            # points placed relative to the *new* cell would hide nothing, but the old ones may now sit within the
+            # rounding bound of a face; the margin test of the oracle handles that
+        done.append(m)
         try:
-            box = apply_spec(box, m)
+            box = apply_spec_alias(box, m)
         except Exception as e:  # noqa
             viol(f"construct:{m['kind']}", f"valid cell redefinition {_short(m)} raised {type(e).__name__}: {e}")
             return
-        _oracle_box(ctx, box, m, pts, rels, viol, after_mutation=True)
+        _oracle_box(ctx, box, m, pts, rels, viol, after_mutation=True, light=light)
 
 
-def _oracle_box(ctx, box, spec, pts, rels, viol, after_mutation=False):
+def apply_spec_alias(box, spec):
+    """apply_spec; with spec['alias'] the setter receives numpy arrays which are overwritten *afterwards* (the Box
+    must have copied the values, as `self.__vects[:] = value` does)."""
+    np = _np()
+    if not spec.get('alias'):
+        return apply_spec(box, spec)
+    sp = dict(spec, kw=dict(spec['kw']))
+    sp.pop('container', None)
+    held = []
+    for key in ('vects', 'avect', 'bvect', 'cvect', 'origin'):
+        if key in sp['kw']:
+            arr = np.array(sp['kw'][key], dtype=float)
+            sp['kw'][key] = arr
+            held.append(arr)
+    out = apply_spec(box, sp)
+    for arr in held:
+        arr[...] = arr * -3.0 + 17.0
+    return out
+
+
+def _oracle_box(ctx, box, spec, pts, rels, viol, after_mutation=False, light=False):
     import atomman as am
     np = _np()
     V, o = _fmat(box)
@@ -1059,7 +1267,11 @@ def _oracle_box(ctx, box, spec, pts, rels, viol, after_mutation=False):
                      f'{box.origin.tolist()}){tag}')
 
     # -- rebuild through every other parameter set -----------------------------------------------------
-    _oracle_rebuild(ctx, box, V, o, det, normal, cond, vmax, viol, tag)
+    if not light:
+        _oracle_rebuild(ctx, box, V, o, det, normal, cond, vmax, viol, tag)
+
+    # -- the object is determined by its vectors and origin, not by its history --------------------------
+    _oracle_twin(ctx, box, spec, pts, rels, viol, tag, after_mutation)
 
     # -- reciprocal vectors dual to the cell vectors (also catches a stale cache) -----------------------
     try:
@@ -1080,8 +1292,128 @@ def _oracle_box(ctx, box, spec, pts, rels, viol, after_mutation=False):
 
     # -- conversions: mutual inverses, exact value, container independence ------------------------------
     Vinv = _inv3(V)
-    for name in VARIANTS:
+    for name in (VARIANTS if not light else ['array2', VARIANTS[len(pts) % len(VARIANTS)]]):
         _oracle_points(ctx, box, V, o, Vinv, cond, vmax, rmax, pts, rels, name, viol, tag, spec)
+
+
+def _snapshot(box, P, S):
+    """every observation of C01 on one object, as arrays (bitwise comparable)."""
+    np = _np()
+    out = {}
+
+    def put(name, f):
+        try:
+            out[name] = np.array(f(), copy=True)
+        except Exception as e:  # noqa
+            out[name] = f'raised {type(e).__name__}'
+
+    for nm in ('vects', 'origin', 'avect', 'bvect', 'cvect', 'reciprocal_vects', 'a', 'b', 'c', 'alpha', 'beta', 'gamma',
+               'volume'):
+        put(nm, lambda nm=nm: getattr(box, nm))
+    try:
+        normal = bool(box.is_lammps_norm())
+    except Exception:  # noqa
+        normal = False
+    out['is_lammps_norm()'] = np.array(normal)
+    if normal:
+        for nm in ('lx', 'ly', 'lz', 'xy', 'xz', 'yz', 'xlo', 'xhi', 'ylo', 'yhi', 'zlo', 'zhi'):
+            put(nm, lambda nm=nm: getattr(box, nm))
+    put('position_cartesian_to_relative(P)', lambda: box.position_cartesian_to_relative(P))
+    put('position_relative_to_cartesian(S)', lambda: box.position_relative_to_cartesian(S))
+    put('inside(P)', lambda: box.inside(P))
+    put('inside(P, inclusive=False)', lambda: box.inside(P, inclusive=False))
+    put('outside(P)', lambda: box.outside(P))
+    put('outside(P, inclusive=True)', lambda: box.outside(P, inclusive=True))
+    put('planes (normal, point)', lambda: [[pl.normal, pl.point] for pl in box.planes])
+    return out
+
+
+def _snap_diff(s1, s2):
+    np = _np()
+    for k in s1:
+        x, y = s1[k], s2.get(k)
+        if isinstance(x, str) or isinstance(y, str) or y is None:
+            if not (isinstance(x, str) and isinstance(y, str) and x == y):
+                return k, x, y
+        elif x.shape != y.shape or not np.array_equal(x, y, equal_nan=(x.dtype.kind == 'f')):
+            return k, x, y
+    return None
+
+
+def _fmt(x):
+    return x if isinstance(x, str) else repr(x.tolist())
+
+
+def _oracle_twin(ctx, box, spec, pts, rels, viol, tag, after_mutation):
+    """One cell = one parallelepiped: a Box that went through a history of setters and reads must be
+    indistinguishable (bit for bit: the same float operations on the same numbers) from a Box built directly from
+    its current vects and origin, and from a fresh Box given the same final definition.  No tolerance involved, so a
+    stale or half-updated derived quantity shows however small the last change was.  Then the arrays the getters
+    returned are overwritten in place: the object must not change (vects and origin are documented as copies)."""
+    import atomman as am
+    np = _np()
+    P, S = np.array(pts, dtype=float), np.array(rels, dtype=float)
+    try:
+        twin = am.Box(vects=box.vects, origin=box.origin)
+    except Exception as e:  # noqa
+        viol('twin:raises', f'Box(vects=box.vects, origin=box.origin) raised {type(e).__name__}: {e} for {box.vects.tolist()}')
+        return
+    ctx.stats.case('oracle:twin', (repr(_short(spec)), after_mutation, repr(pts[:1])))
+    here, there = _snapshot(box, P, S), _snapshot(twin, P, S)
+    d = _snap_diff(here, there)
+    if d is not None:
+        k, x, y = d
+        viol('state:history-dependent' + (':' + k.split('(')[0].split(' ')[0]),
+             f'{k} = {_fmt(x)} on a Box with vects {box.vects.tolist()}, origin {box.origin.tolist()}{tag}, but a fresh '
+             f'Box(vects=…, origin=…) with exactly these vects and origin gives {_fmt(y)}'
+             + (f' [P = {pts}]' if '(P' in k else '') + (f' [S = {rels}]' if '(S' in k else ''))
+    # a fresh object given the same (final) definition
+    if spec['kind'] in ('vects', 'vectors', 'lengths', 'hilos', 'abc') and spec.get('via') != 'family':
+        try:
+            sp = dict(spec, via='set')
+            sp.pop('alias', None)
+            fresh = apply_spec(am.Box(), sp)
+            if not (np.array_equal(fresh.vects, box.vects) and np.array_equal(fresh.origin, box.origin)):
+                viol('state:setter-depends-on-history', f'{_short(sp)} applied{tag or " through " + str(spec.get("via"))} '
+                     f'gives vects {box.vects.tolist()}, origin {box.origin.tolist()}; the same definition on a new Box() gives '
+                     f'{fresh.vects.tolist()}, {fresh.origin.tolist()}')
+        except Exception as e:  # noqa
+            viol(f"construct:{spec['kind']}", f'{_short(spec)} on a new Box() raised {type(e).__name__}: {e}')
+    # overwrite what the getters handed out
+    def scribble(obj, only=None):
+        names = []
+        for nm, f in (('vects', lambda: obj.vects), ('origin', lambda: obj.origin), ('avect', lambda: obj.avect),
+                      ('bvect', lambda: obj.bvect), ('cvect', lambda: obj.cvect),
+                      ('reciprocal_vects', lambda: obj.reciprocal_vects),
+                      ('position_cartesian_to_relative(P)', lambda: obj.position_cartesian_to_relative(P)),
+                      ('position_relative_to_cartesian(S)', lambda: obj.position_relative_to_cartesian(S)),
+                      ('planes[0].point', lambda: obj.planes[0].point), ('planes[3].normal', lambda: obj.planes[3].normal)):
+            if only is not None and nm != only:
+                continue
+            try:
+                arr = f()
+                if isinstance(arr, np.ndarray) and arr.flags.writeable:
+                    arr[...] = arr * 2.5 + 1.0
+                    names.append(nm)
+            except Exception:  # noqa
+                continue
+        return names
+
+    names = scribble(box)
+    d = _snap_diff(here, _snapshot(box, P, S))
+    if d is not None:
+        k, x, y = d
+        culprit = names
+        for nm in names:          # which one: each alone on a further fresh object
+            t = am.Box(vects=twin.vects, origin=twin.origin)
+            t0 = _snapshot(t, P, S)
+            scribble(t, only=nm)
+            if _snap_diff(t0, _snapshot(t, P, S)) is not None:
+                culprit = [nm]
+                break
+        viol('state:aliased-output:' + culprit[0].split('(')[0],
+             f'modifying in place the array returned by box.{" / ".join(culprit)} changes the Box: {k} was {_fmt(x)}, is now '
+             f'{_fmt(y)} (vects {twin.vects.tolist()}, origin {twin.origin.tolist()}){tag}')
 
 
 def _oracle_rebuild(ctx, box, V, o, det, normal, cond, vmax, viol, tag):
@@ -1316,15 +1648,40 @@ def search(ctx, broken):
         rels = [[(_dy(rng, -2, 2) if regime == 'grid' else rng.uniform(-2, 2)) for _ in range(3)] for _ in range(n)]
         muts = []
         for _ in range(rng.randint(0, 2)):
-            if rng.random() < 0.5:
+            r = rng.random()
+            if r < 0.3:
                 v = gen_spec(rng, regime, kinds=['vects'])['kw']['vects']
                 muts.append({'kind': 'attr_vects', 'via': 'attr', 'kw': {'vects': v}, 'regime': regime})
+            elif r < 0.6:
+                muts.append(gen_perturb(rng))
             else:
                 m = gen_spec(rng, regime)
                 if m['via'] in ('ctor', 'family'):
                     m['via'] = 'set'
                 muts.append(m)
+        for m in [spec] + muts:
+            if 'perturb' not in m and m.get('via') != 'family' and rng.random() < 0.3:
+                m['alias'] = True
         oracle_cell(ctx, spec, pts, rels, muts)
+    # chains of small changes on one object whose lazily computed quantities are all warm
+    for it in range(ctx.n(60, 1500) * (3 if broken else 1)):
+        spec = gen_spec(rng, 'float')
+        if rng.random() < 0.5:
+            spec = scale_spec(spec, 2.0 ** rng.choice([-30, -24, -10, 10, 20, 30]))
+        try:
+            import atomman as am
+            tmp = apply_spec(am.Box() if spec.get('via') not in ('ctor', 'family') else None, spec)
+            V, o = _fmat(tmp)
+        except Exception as e:  # noqa
+            ctx.violate(f"construct:{spec['kind']}", f'valid cell definition {_short(spec)} raised {type(e).__name__}: {e}',
+                        {'op': 'cell', 'spec': _short(spec), 'points': [], 'rels': [], 'mutations': []})
+            continue
+        pts = gen_points(rng, V, o, 'float', 5)
+        rels = [[rng.uniform(-2, 2) for _ in range(3)] for _ in range(5)]
+        eps0 = 10 ** rng.uniform(-15, -4)
+        muts = [gen_perturb(rng, eps=(rng.choice([-1, 1]) * eps0 if rng.random() < 0.6 else None))
+                for _ in range(rng.randint(2, 4))]
+        oracle_cell(ctx, spec, pts, rels, muts, light=True)
 
 
 def replay(ctx, payload):
@@ -1334,7 +1691,8 @@ def replay(ctx, payload):
         spec.setdefault('regime', 'float')
         muts = [dict(m, regime=m.get('regime', 'float')) for m in r.get('mutations', [])]
         print('replay cell', spec)
-        oracle_cell(ctx, spec, r['points'] or [[0.25, 0.5, 0.75]], r['rels'] or [[0.25, 0.5, 0.75]], muts)
+        oracle_cell(ctx, spec, r['points'] or [[0.25, 0.5, 0.75]], r['rels'] or [[0.25, 0.5, 0.75]], muts,
+                    light=bool(r.get('light')))
         for v in ctx.violations:
             print('  still fails:', v.what[:300])
         if not ctx.violations:
